@@ -107,3 +107,6 @@ func VerifC04TrackerFirstLeaf() CellID { return CellIDFromFace(0).ChildBeginAtLe
 func VerifC04CellFaceUV(c Cell) (face int, ulo, uhi, vlo, vhi float64) {
 	return int(c.face), c.uv.X.Lo, c.uv.X.Hi, c.uv.Y.Lo, c.uv.Y.Hi
 }
+
+// VerifC04Depth is the nesting depth of a loop inside its polygon.
+func (l *Loop) VerifC04Depth() int { return l.depth }
